@@ -802,6 +802,12 @@ class Interp:
         if isinstance(st.op, ast.Add) and isinstance(cur, ListV) and cur.absorbed is None:
             self.bi.list_extend(cur, rhs, st, fr)
             return
+        if isinstance(st.op, ast.Add) and fr.abs_loop and isinstance(cur, Str) and isinstance(rhs, Str):
+            # text += piece inside a loop over a list of unknown length: the in-order join of the pieces
+            src = fr.abs_loop[-1]
+            flags = {"mixed": True} if any(isinstance(a, Join) and a.src == src for a in cur.atoms) else {}
+            self.assign(st.target, cur + Str((Join("", rhs, src, flags),)), fr)
+            return
         self.assign(st.target, self.binop(st.op, cur, rhs, st, fr), fr)
 
     def assign(self, t: ast.expr, v: Value, fr: Frame) -> None:
